@@ -311,11 +311,41 @@ DET_TASKS = [
 ]
 
 
+def big_programs():
+    """many rules of very uneven cost (output order must not depend on which formula is finished first)"""
+    heavy = "p0(X) :- q(X), X = 1 + 2 + 3 + 4 + 5 + 6, not r(X), not not s(X), t(X, Y), u(Y, Z), X < Y, Y < Z, Z != X * Y - 3.\n"
+    light = "".join(f"p{i}(X) :- q{i}(X), not r{i}(X).\n" for i in range(1, 90))
+    return heavy + light, light + heavy.replace("X < Y, Y < Z", "Y > X, Z > Y")
+
+
+def big_theory():
+    heavy = "forall X Y Z (exists N$i J$i K$i (X = N$i and Y = J$i and Z = K$i and N$i = J$i + 1 and J$i = K$i + 1 and K$i = 3 and p(X, Y, Z) and not not q(X) and (q(X) -> q(X))) -> r(X)).\n"
+    return heavy + "".join(f"forall X (p{i}(X) and #true -> q{i}(X) or #false).\n" for i in range(120))
+
+
+def det_simplify(ctx):
+    """`simplify` on a theory with one expensive and many cheap formulas, five times per portfolio, in separate processes"""
+    d = ctx.path("detsimp")
+    os.makedirs(d, exist_ok=True)
+    f = os.path.join(d, "big.spec")
+    with open(f, "w") as fh:
+        fh.write(big_theory())
+    out = []
+    for pf in ("classic", "ht"):
+        hs = set()
+        for _ in range(5):
+            r = subprocess.run([V.ANTHEM, "simplify", "--portfolio", pf, "--strategy", "fixpoint", f], stdout=subprocess.PIPE, stderr=subprocess.PIPE, timeout=120)
+            hs.add(hashlib.sha256(r.stdout + b"\1" + str(r.returncode).encode()).hexdigest()[:16])
+        out.append({"task": "simplify-" + pf, "kind": "simplify", "files": {"big.spec": "1 expensive + 120 cheap formulas"}, "distinct_outputs": [sorted(hs)]})
+    return out
+
+
 def det_tasks(ctx):
     """multi-file tasks whose output order could depend on hashing: run several times in separate processes"""
     out = []
     work = ctx.path("det")
-    for k, (kind, files) in enumerate(DET_TASKS):
+    bigA, bigB = big_programs()
+    for k, (kind, files) in enumerate(DET_TASKS + [("strong", {"a.lp": bigA, "b.lp": bigB})]):
         d = os.path.join(work, f"t{k}")
         os.makedirs(os.path.join(d, "save"), exist_ok=True)
         for fn, txt in files.items():
@@ -333,6 +363,21 @@ def det_tasks(ctx):
                 for fn in sorted(os.listdir(os.path.join(d, "save"))):
                     blob += fn.encode() + b"\0" + open(os.path.join(d, "save", fn), "rb").read()
                 hs.add(hashlib.sha256(blob).hexdigest()[:16])
+            if not flags:
+                # the files do not depend on what an earlier run left in the directory: longer files first (no simplification, no
+                # equivalence breaking), then the same command again WITHOUT emptying the directory
+                save = os.path.join(d, "save")
+                fresh = {fn: open(os.path.join(save, fn), "rb").read() for fn in os.listdir(save)}
+                args = [os.path.join(d, fn) for fn in sorted(files)]
+                subprocess.run([V.ANTHEM, "verify", "--equivalence", kind, "--no-proof-search", "--save-problems", save, "--no-simplify", "--no-eq-break"] + args,
+                               stdout=subprocess.PIPE, stderr=subprocess.PIPE, timeout=120)
+                subprocess.run([V.ANTHEM, "verify", "--equivalence", kind, "--no-proof-search", "--save-problems", save] + args,
+                               stdout=subprocess.PIPE, stderr=subprocess.PIPE, timeout=120)
+                for fn in sorted(fresh):
+                    p = os.path.join(save, fn)
+                    if not os.path.exists(p) or open(p, "rb").read() != fresh[fn]:
+                        hs.add(f"reused-directory-differs:{fn}")
+                        break
             hashes.append(sorted(hs))
         out.append({"task": k, "kind": kind, "files": files, "distinct_outputs": hashes})
     return out
@@ -385,11 +430,11 @@ def run_C18(ctx):
     # (b) determinism: every command twice in separate processes; hash-order-sensitive tasks five times
     crecs, cviol, st = run_cli_check(ctx, "C18")
     violations += cviol
-    dt = det_tasks(ctx)
+    dt = det_tasks(ctx) + det_simplify(ctx)
     for t in dt:
         if any(len(h) != 1 for h in t["distinct_outputs"]):
-            violations.append({"check": "C18.separate_processes_give_identical_output", "text": f"verify --equivalence {t['kind']} " + " ".join(sorted(t["files"])),
-                               "detail": f"5 runs in separate processes produced {t['distinct_outputs']} distinct outputs (stdout + problem files)",
+            violations.append({"check": "C18.separate_processes_give_identical_output", "text": (f"verify --equivalence {t['kind']} " if t["kind"] != "simplify" else "simplify ") + " ".join(sorted(t["files"])),
+                               "detail": f"runs in separate processes (5 into an empty directory, 1 into a used one) produced {t['distinct_outputs']} distinct outputs (stdout + problem files)",
                                "record": t})
     maxpass = max([len(r["passes"]) for r in recs] + [0])
     coverage = {
@@ -400,7 +445,9 @@ def run_C18(ctx):
         "rule": "fixpoint: the C07 formulas (redex templates, random formulas, tau* outputs), results of one portfolio fed to the others, and "
                 "formulas needing many passes (up to 30 integer variables equated in a chain, long prefixes), x 3 portfolios: the loop is driven "
                 "pass by pass (<= 64) and the hash sequence validated against SimplifyLoop.tla; determinism: every applicable command twice in "
-                "separate processes on generated and repository inputs, and four multi-placeholder / multi-predicate verify tasks five times; "
+                "separate processes on generated and repository inputs; four multi-placeholder / multi-predicate verify tasks and one with 90 rules of "
+                "uneven cost five times into an empty directory and once into a directory that holds longer files of the same names; `simplify` of a "
+                "theory with 1 expensive + 120 cheap formulas five times per portfolio; "
                 "non-trivial = the formula changed at least once",
         "samples": [{"formula": r["text"], "portfolio": r["portfolio"], "passes": len(r["passes"])} for r in recs[:3]] + dt[:1], "exhaustive": False,
     }
